@@ -125,6 +125,12 @@ mod tree_store;
 mod tuple_types;
 mod types;
 
+/// Verification hooks, only present under `--cfg redb_verif`
+#[cfg(redb_verif)]
+pub mod verif {
+    pub use crate::tree_store::page_store_verif::*;
+}
+
 // core cannot tell whether the current thread is unwinding, and redb's Drop impls consult that in
 // opposite ways, so neither constant is safe to assume. Restricted to panic = "abort" instead,
 // where nothing unwinds and panicking() below is vacuously correct.
